@@ -354,11 +354,11 @@ func (v *Vue) resolveArgument(ctx VueContext, arg string) any {
 // Otherwise, all provided arguments are passed directly.
 func (v *Vue) callFunc(ctx *VueContext, fn any, args ...any) (any, error) {
 	fnVal := reflect.ValueOf(fn)
-	fnType := fnVal.Type()
-
-	if fnType.Kind() != reflect.Func {
+	// A nil entry in the function map is the zero Value, which has no type
+	if !fnVal.IsValid() || fnVal.Kind() != reflect.Func {
 		return nil, fmt.Errorf("not a function")
 	}
+	fnType := fnVal.Type()
 
 	// Check if first parameter is *VueContext
 	hasContextParam := false
